@@ -207,6 +207,8 @@ def strat_pipeline(draw, tier, mode, heavy_faults=False):
     else:
         case["reserve_monitor"] = draw(st.booleans())
         case["align_sdram"] = draw(st.booleans())
+    # cores and memories named by identifiers of the caller's own
+    case["custom_resources"] = draw(st.integers(0, 3)) == 0
     return case
 
 
@@ -264,10 +266,30 @@ def build_system_info(case):
     return si
 
 
+CUSTOM_RESOURCES = {"Cores": "my cores", "SDRAM": ("my", "sdram"),
+                    "SRAM": "my_sram"}
+
+
 def run_pipeline(case):
     """-> dict(placements, allocations, tables, keys) with names / ints, or
     raises a documented exception."""
-    from rig.place_and_route import allocate, route, Cores
+    if case.get("custom_resources"):
+        # the caller's own identifiers for cores and memories, named through
+        # the documented core_resource= / sdram_resource= / sram_resource=
+        pr._alias = dict(CUSTOM_RESOURCES)
+    try:
+        return _run_pipeline(case)
+    finally:
+        pr._alias = {}
+
+
+def _run_pipeline(case):
+    from rig.place_and_route import allocate, route
+    Cores = pr.resource("Cores")
+    res_kw = {}
+    if case.get("custom_resources"):
+        res_kw = {"core_resource": Cores,
+                  "sdram_resource": pr.resource("SDRAM")}
     from rig.routing_table import routing_tree_to_tables, minimise_tables
     vr, nets, machine, cons, vobj = gp.build_problem(case)
     back = dict((id(o) if case["vkind"] in ("obj", "idobj") else o, n)
@@ -283,8 +305,12 @@ def run_pipeline(case):
     if mode == "by-hand":
         placements = place(vr, nets, machine, cons, **place_kwargs)
         allocations = allocate(vr, nets, machine, cons, placements)
-        routes = route(vr, nets, machine, cons, placements, allocations,
-                       **route_kwargs)
+        if res_kw:
+            routes = route(vr, nets, machine, cons, placements, allocations,
+                           core_resource=Cores, **route_kwargs)
+        else:
+            routes = route(vr, nets, machine, cons, placements, allocations,
+                           **route_kwargs)
         tables = routing_tree_to_tables(routes, keys)
         t = case["target"]
         if isinstance(t, list):
@@ -299,7 +325,9 @@ def run_pipeline(case):
         si = build_system_info(case)
         apps = dict((v, "app%d.aplx" % (i % 2))
                     for i, v in enumerate(vr))
-        kw = {}
+        kw = dict(res_kw)
+        if res_kw:
+            kw["sram_resource"] = pr.resource("SRAM")
         if case["methods"] is not None:
             kw["minimise_tables_methods"] = _methods(case["methods"])
         placements, allocations, appmap, tables = place_and_route_wrapper(
@@ -315,7 +343,8 @@ def run_pipeline(case):
                 vr, apps, nets, keys, machine, cons,
                 reserve_monitor=case["reserve_monitor"],
                 align_sdram=case["align_sdram"], place=place,
-                place_kwargs=place_kwargs, route_kwargs=route_kwargs)
+                place_kwargs=place_kwargs, route_kwargs=route_kwargs,
+                **res_kw)
         _check_appmap(case, appmap, apps, placements, allocations, Cores)
 
     def nm(o):
@@ -348,7 +377,9 @@ def check_pipeline(case):
     from rig.routing_table import MinimisationFailedError
     documented = (InsufficientResourceError, InvalidConstraintError,
                   MachineHasDisconnectedSubregion, MinimisationFailedError)
-    cls = [case["mode"], "placer=" + case["placer"],
+    cls = [case["mode"], "placer=" + case["placer"]] + (
+        ["custom-resource-identifiers"] if case.get("custom_resources")
+        else []) + [
            "methods=" + ("default" if case["methods"] is None else
                          "+".join(case["methods"]) or "none"),
            "mesh" if case["machine"]["mesh"] else "torus"]
